@@ -66,6 +66,7 @@ TStep ==
                 [] e.ev = "Close"       -> Close(e.c, e.res, Gone)
                 [] e.ev = "Read"        -> Read(e.c, e.n, e.res, e.val)
                 [] e.ev = "Write"       -> Write(e.c, e.n, e.v, e.res)
+                [] e.ev = "SetLevel"    -> SetLevel(e.n, e.c, e.res)
                 [] e.ev = "Browse"      -> Browse(e.c, e.res)
                 [] e.ev = "Unsupported" -> Unsupported(e.c, e.res)
                 [] e.ev = "CreateSub"   -> CreateSub(e.c, e.id, e.res)
